@@ -919,6 +919,17 @@ class _Idioms(ast.NodeTransformer):
             f = ast.unparse(n.func)
         except Exception:
             return n
+        # os.path.join(os.path.join(a, b), c)  ==  os.path.join(a, b, c)
+        if f == "os.path.join" and n.args and not n.keywords and isinstance(n.args[0], ast.Call) \
+                and not n.args[0].keywords and not any(isinstance(a, ast.Starred) for a in n.args[0].args):
+            try:
+                inner = ast.unparse(n.args[0].func)
+            except Exception:
+                inner = ""
+            if inner == "os.path.join" and n.args[0].args:
+                n.args = list(n.args[0].args) + list(n.args[1:])
+                self.applied.append("join-flatten")
+                ast.fix_missing_locations(n)
         if f == "os.path.dirname" and len(n.args) == 1 and not n.keywords:
             new = ast.Subscript(value=ast.Call(func=_dotted("os.path.split"), args=n.args, keywords=[]),
                                 slice=ast.Constant(value=0), ctx=ast.Load())
@@ -1029,11 +1040,157 @@ def _dotted(text):
     return node
 
 
+def drop_dead_containers(tree):
+    """locals that are only ever bound to a fresh empty container and filled (append / extend / [k] = ...) with
+    call-free values, and never read: the statements that build them have no effect on anything and are removed"""
+    applied = []
+    for q, fn in alpha.functions_of(tree):
+        params = {a.arg for a in ast.walk(fn.args) if isinstance(a, ast.arg)}
+        uses = {}
+        for x in ast.walk(fn):
+            if isinstance(x, ast.Name):
+                uses.setdefault(x.id, []).append(x)
+        par = {}
+        for x in ast.walk(fn):
+            for c in ast.iter_child_nodes(x):
+                par[c] = x
+        dead = {}
+        for name, occ in uses.items():
+            if name in params or name == "_":
+                continue
+            stmts, ok = [], True
+            for o in occ:
+                p = par.get(o)
+                if isinstance(o.ctx, ast.Store) and isinstance(p, ast.Assign) and len(p.targets) == 1 and p.targets[0] is o \
+                        and (isinstance(p.value, (ast.List, ast.Dict)) and not (getattr(p.value, "elts", None) or getattr(p.value, "keys", None))):
+                    stmts.append(p)
+                elif isinstance(p, ast.Attribute) and p.value is o and p.attr in ("append", "extend") and \
+                        isinstance(par.get(p), ast.Call) and par[p].func is p and isinstance(par.get(par[p]), ast.Expr) \
+                        and not any(has_call(a) or any(isinstance(y, ast.Name) for y in ast.walk(a)) for a in par[p].args):
+                    stmts.append(par[par[p]])
+                else:
+                    ok = False
+                    break
+            if ok and stmts and any(isinstance(s_, ast.Assign) for s_ in stmts):
+                dead[name] = stmts
+        if not dead:
+            continue
+        kill = {id(s_) for ss in dead.values() for s_ in ss}
+        for x in ast.walk(fn):
+            for fld in ("body", "orelse", "finalbody"):
+                b = getattr(x, fld, None)
+                if isinstance(b, list) and b and isinstance(b[0], ast.stmt):
+                    nb = [s_ for s_ in b if id(s_) not in kill]
+                    if len(nb) != len(b):
+                        setattr(x, fld, nb or [ast.copy_location(ast.Pass(), b[0])])
+        applied += [f"dead-container:{q}:{n}" for n in dead]
+    return applied
+
+
+def loops_to_comprehensions(tree):
+    """`x = []` directly followed (same block) by `for v in IT: [t = E0;] x.append(E)` whose body is nothing else,
+    with v a plain name not used after the loop  ->  `x = [E for v in IT]`   (same elements, same order; E0/E are
+    evaluated once per element in both forms).  Applied to every tree, the reference included."""
+    applied = []
+    for q, fn in alpha.functions_of(tree):
+        for blk in [b for x in ast.walk(fn) for f_ in ("body", "orelse", "finalbody")
+                    for b in [getattr(x, f_, None)] if isinstance(b, list) and b and isinstance(b[0], ast.stmt)]:
+            i = 0
+            while i + 1 < len(blk):
+                a, lp = blk[i], blk[i + 1]
+                ok = isinstance(a, ast.Assign) and len(a.targets) == 1 and isinstance(a.targets[0], ast.Name) \
+                    and isinstance(a.value, ast.List) and not a.value.elts \
+                    and isinstance(lp, ast.For) and not lp.orelse and isinstance(lp.target, ast.Name) \
+                    and 1 <= len(lp.body) <= 2
+                if ok:
+                    x, v = a.targets[0].id, lp.target.id
+                    last = lp.body[-1]
+                    ok = isinstance(last, ast.Expr) and isinstance(last.value, ast.Call) and \
+                        isinstance(last.value.func, ast.Attribute) and last.value.func.attr == "append" and \
+                        isinstance(last.value.func.value, ast.Name) and last.value.func.value.id == x and \
+                        len(last.value.args) == 1 and not last.value.keywords
+                if ok:
+                    elt = last.value.args[0]
+                    if len(lp.body) == 2:
+                        t = lp.body[0]
+                        ok = isinstance(t, ast.Assign) and len(t.targets) == 1 and isinstance(t.targets[0], ast.Name) \
+                            and sum(1 for y in ast.walk(elt) if isinstance(y, ast.Name) and y.id == t.targets[0].id) == 1 \
+                            and isinstance(elt, ast.Name) and \
+                            sum(1 for y in ast.walk(fn) if isinstance(y, ast.Name) and y.id == t.targets[0].id) == 2
+                        if ok:
+                            elt = t.value
+                if ok:
+                    # x and v must not occur in IT / E in a way the comprehension scope changes; v unused afterwards
+                    uses_x = any(isinstance(y, ast.Name) and y.id == x for y in ast.walk(elt)) or \
+                        any(isinstance(y, ast.Name) and y.id == x for y in ast.walk(lp.iter))
+                    later = sorted((y for y in ast.walk(fn) if isinstance(y, ast.Name) and y.id == v and
+                                    (y.lineno, y.col_offset) > (getattr(lp, "end_lineno", lp.lineno), 0)),
+                                   key=lambda y: (y.lineno, y.col_offset))
+                    v_after = bool(later) and not isinstance(later[0].ctx, ast.Store)   # read before being re-bound
+                    has_yield = any(isinstance(y, (ast.Yield, ast.YieldFrom, ast.Await, ast.NamedExpr)) for y in ast.walk(elt))
+                    if not uses_x and not v_after and not has_yield and not _does_io(elt):
+                        comp = ast.ListComp(elt=elt, generators=[ast.comprehension(target=lp.target, iter=lp.iter,
+                                                                                    ifs=[], is_async=0)])
+                        new = ast.Assign(targets=[ast.Name(id=x, ctx=ast.Store())], value=comp)
+                        ast.copy_location(new, a)
+                        ast.fix_missing_locations(new)
+                        blk[i:i + 2] = [new]
+                        applied.append(f"loop-to-comprehension:{q}:{x}")
+                        continue
+                i += 1
+    return applied
+
+
+IO_METHODS = ("readline", "read", "readlines", "write", "seek", "tell", "fromfile")
+
+
+def _does_io(e):
+    return any(isinstance(y, ast.Call) and ((isinstance(y.func, ast.Attribute) and y.func.attr in IO_METHODS) or
+                                            (isinstance(y.func, ast.Name) and y.func.id in ("open", "print")))
+               for y in ast.walk(e))
+
+
+def io_comprehensions_to_loops(tree):
+    """the converse for comprehensions that perform I/O per element: `x = [E for v in IT]` with a readline / write /
+    seek in E  ->  `x = []; for v in IT: x.append(E)`.  File-position reasoning (line grammars, byte accounting) is
+    done on statements, so I/O always appears in loop form, pure element-wise construction in comprehension form."""
+    applied = []
+    for q, fn in alpha.functions_of(tree):
+        for blk in [b for x in ast.walk(fn) for f_ in ("body", "orelse", "finalbody")
+                    for b in [getattr(x, f_, None)] if isinstance(b, list) and b and isinstance(b[0], ast.stmt)]:
+            i = 0
+            while i < len(blk):
+                a = blk[i]
+                if isinstance(a, ast.Assign) and len(a.targets) == 1 and isinstance(a.targets[0], (ast.Name, ast.Attribute)) \
+                        and isinstance(a.value, ast.ListComp) and len(a.value.generators) == 1 \
+                        and not a.value.generators[0].ifs and _does_io(a.value.elt) \
+                        and not _does_io(a.value.generators[0].iter):
+                    g = a.value.generators[0]
+                    tgt = a.targets[0]
+                    if isinstance(tgt, ast.Attribute):
+                        i += 1
+                        continue
+                    init = ast.Assign(targets=[ast.Name(id=tgt.id, ctx=ast.Store())], value=ast.List(elts=[], ctx=ast.Load()))
+                    call = ast.Expr(value=ast.Call(func=ast.Attribute(value=ast.Name(id=tgt.id, ctx=ast.Load()),
+                                                                      attr="append", ctx=ast.Load()),
+                                                   args=[a.value.elt], keywords=[]))
+                    loop = ast.For(target=g.target, iter=g.iter, body=[call], orelse=[])
+                    for nnode in (init, loop):
+                        ast.copy_location(nnode, a)
+                        ast.fix_missing_locations(nnode)
+                    blk[i:i + 1] = [init, loop]
+                    applied.append(f"io-comprehension-to-loop:{q}:{tgt.id}")
+                    i += 2
+                    continue
+                i += 1
+    return applied
+
+
 def normalise_idioms(tree):
     t = _Idioms()
     t.visit(tree)
     ast.fix_missing_locations(tree)
-    return t.applied
+    return t.applied + drop_dead_containers(tree) + io_comprehensions_to_loops(tree) + loops_to_comprehensions(tree)
 
 
 # ------------------------------------------------------------------------------------------------ entry point
